@@ -188,7 +188,25 @@ def lanczos_case(op, vec, dt, m_max, tol, tag, force_pure=False):
     case = {"req": req, "impl": impl, "oracle": None, "edge": edge, "kind": tag,
             "sig": f"{tag}:{impl}:{m_max}:{'numba' if vec.size >= mexp.NUMBA_THRESHOLD and not force_pure else 'pure'}",
             "nontrivial": impl.split()[0] in ("breakdown", "converged") or (impl.startswith("exhausted") and m_max > 1)}
+    arr = rec["beta_arr"]
+    if not isinstance(out, str) and nrm != 0 and arr is not None and len(arr) == m_max - 1 and len(betas) == min(k, m_max - 1):
+        # which entries of the real `beta` array (zeros at the start) the loop wrote: tied to the model's write list
+        # (the model gets every written value it needs: `betas` covers the indices < min(k, m_max - 1))
+        written = [j for j in range(len(arr)) if float(arr[j]) != 0.0]
+        WRITES.append({"tag": tag, "req": "lanczosw" + req[len("lanczos"):], "impl": impl + " w " + " ".join(map(str, written)),
+                       "edge": edge, "m_max": m_max, "k": k})
     return case, out, rec
+
+
+WRITES = []
+
+
+def drain_writes():
+    """the `lanczosw` cases collected by `lanczos_case` since the last call"""
+    out = [{"req": w["req"], "impl": w["impl"].rstrip(), "oracle": None, "edge": w["edge"], "kind": w["tag"] + "-writes",
+            "sig": f"{w['tag']}-writes:{w['m_max']}:{w['k']}", "nontrivial": w["k"] > 1} for w in WRITES]
+    WRITES.clear()
+    return out
 
 
 def basis_spec(op_dense, rec, k, vec):
@@ -1478,8 +1496,11 @@ def run_tinyscale(inp):
     return out
 
 def run(inp):
+    WRITES.clear()
     try:
-        return run_kind(inp)
+        res = run_kind(inp)
+        res = res if isinstance(res, list) else [res]
+        return res + drain_writes()
     except Exception as e:  # noqa: BLE001  the real code raised on a legitimate input: that is a verdict, not a harness error
         import traceback
 
